@@ -334,6 +334,12 @@ class BundleFlattener(ElabPass):
         bundle_def._elaborated = True
         scope = BundleScope(src=bundle_inst)
 
+        # Members are referred to by the names the definition holds them under. One re-named since would be flattened to another.
+        for key, attr in bundle_def.namespace.items():
+            if attr.name != key:
+                msg = f"Member `{key}` of {bundle_def} has been re-named `{attr.name}` since it was added"
+                self.fail(msg)
+
         # Copy each scalar signal, retaining its original name as the key in `scope.signals`
         for sig in bundle_def.signals.values():
             signal_path = Path([sig.name])
